@@ -22,12 +22,9 @@ VALUE_KINDS = ['fixtemp', 'cflux']
 COQ_HEAD = '\n'.join([
     'From Coq Require Import String List ZArith.', 'Import ListNotations.',
     'From FV.C01 Require Import Str Dec.', 'From FV.C01 Require Model.',
-    'From FV.C03 Require Import Model.', 'From FV.C03 Require Fmt.',
+    'From FV.C03 Require Import Model Floats.', 'From FV.C03 Require Fmt.',
     'Open Scope string_scope.', 'Set Printing Width 100000.', 'Set Printing Depth 100000.',
     'Definition dq s := match parse_dec_free s with Some d => d | None => dec_zero end.',
-    '(* "%.<k>E" of the binary64 (-1)^neg * m * 2^e, computed by the model (Fmt.v) *)',
-    'Definition fq (k : Z) (neg : bool) (m e : Z) : dec :=',
-    '  match Fmt.fmt_dec k neg m e with Some d => d | None => dec_zero end.',
     '(* node groups come from the C01 model of the .msh reader *)',
     'Definition read_both (msh cnt : list string) : list string :=',
     '  match FV.C01.Model.read_ngroups msh with',
@@ -143,10 +140,11 @@ def float_parts(v):
     return neg, m, exp - 53
 
 
-def coq_fq(v, frac):
-    """the decimal the writer prints for v, computed inside Coq from the exact binary64"""
+def coq_b64(v):
+    """the exact binary64 as Floats.b64; the model (Floats.cnt_of / Fmt.fmt_dec) computes the
+    decimal the writer prints for it"""
     neg, m, e = float_parts(v)
-    return f'(fq {frac} {"true" if neg else "false"} {lib.coq_Z(m)} {lib.coq_Z(e)})'
+    return f'(mkb64 {"true" if neg else "false"} {lib.coq_Z(m)} {lib.coq_Z(e)})'
 
 
 def coq_table(ids, rows, frac):
@@ -155,13 +153,13 @@ def coq_table(ids, rows, frac):
         cells = []
         for h in r:
             v = fx(h) if isinstance(h, str) else h
-            cells.append('None' if math.isnan(v) else f'Some {coq_fq(v, frac)}')
+            cells.append('None' if math.isnan(v) else f'Some {coq_b64(v)}')
         items.append(f'({lib.coq_Z(i)}, {lib.coq_list(cells)})')
     return lib.coq_list(items)
 
 
 def coq_values(ids, rows, frac):
-    return lib.coq_list([f'({lib.coq_Z(i)}, {coq_fq(fx(r[0]), frac)})' for i, r in zip(ids, rows)])
+    return lib.coq_list([f'({lib.coq_Z(i)}, {coq_b64(fx(r[0]))})' for i, r in zip(ids, rows)])
 
 
 def coq_cnt(mesh):
@@ -170,9 +168,9 @@ def coq_cnt(mesh):
     def opt(k, f):
         return f'(Some {f(c[k][0], c[k][1], FRAC[k])})' if k in c else 'None'
     sol = mesh.get('solution_type') or 'STATIC'
-    return (f'(mkcnt {lib.coq_str(sol)} {"true" if mesh["meta"]["only_solid"] else "false"} '
+    return (f'(cnt_of (mkfcnt {lib.coq_str(sol)} {"true" if mesh["meta"]["only_solid"] else "false"} '
             f'{opt("boundary", coq_table)} {opt("spring", coq_table)} {opt("cload", coq_table)} '
-            f'{opt("fixtemp", coq_values)} {opt("cflux", coq_values)})')
+            f'{opt("fixtemp", coq_values)} {opt("cflux", coq_values)}))')
 
 
 def coq_ngs(ngs):
@@ -418,7 +416,7 @@ def main(ctx):
         sec_ok, log3 = ctx.build_props('C03/PropsSections.v', scan_dirs=[lib.COQ / 'C03'])
     model_ok = tie_ok
     if tie_ok and not proof_ok:
-        ok, log, _ = lib.coq_make(['C03/Model.vo'])
+        ok, log, _ = lib.coq_make(['C03/Floats.vo'])
         model_ok = ok
 
     # ------------------------------------------------------------ cases
